@@ -88,13 +88,38 @@ class TimeoutExpired(Exception):
 
 
 class BytesModel:
-    """bytes read from a pipe; only ``decode()`` is used by ddSMT."""
+    """Bytes read from a pipe; only ``decode()`` is used by ddSMT.
 
-    def __init__(self, text):
+    The child writes what it likes, so whether the bytes are well-formed
+    UTF-8 is an input of the proof (ghost boolean ``valid_utf8_<tag>``):
+    a strict decode of ill-formed bytes raises UnicodeDecodeError, the
+    handlers that substitute (backslashreplace, replace, ignore, ...) return
+    text for every byte string."""
+
+    TOTAL_HANDLERS = ('backslashreplace', 'replace', 'ignore',
+                      'surrogateescape', 'namereplace', 'xmlcharrefreplace')
+
+    def __init__(self, text, tag=None):
         self.text = text
+        self.tag = tag
 
-    def decode(self, *a):
-        return self.text
+    def decode(self, encoding='utf-8', errors='strict'):
+        encoding, errors = force(encoding), force(errors)
+        if not isinstance(encoding, str) or encoding.lower().replace(
+                '_', '-') not in ('utf-8', 'utf8'):
+            raise Unsupported(f'bytes.decode: encoding {encoding!r} is not '
+                              'modelled')
+        if errors == 'strict':
+            p = cur()
+            valid = p.fresh_bool(f'valid_utf8_{self.tag}')
+            if not p.decide(valid):
+                raise PyRaise(UnicodeDecodeError(
+                    'utf-8', b'\xff', 0, 1, 'invalid start byte'))
+            return self.text
+        if errors in self.TOTAL_HANDLERS:
+            return self.text
+        raise Unsupported(f'bytes.decode: error handler {errors!r} is not '
+                          'modelled')
 
 
 class ProcModel:
@@ -116,8 +141,8 @@ class ProcModel:
         if self.killed:
             # after kill() the child is gone: communicate returns at once
             self.returncode = mk.opt_int(p, f'rc{self.n}')
-            return (BytesModel(mk.sstr(p, f'out{self.n}')),
-                    BytesModel(mk.sstr(p, f'err{self.n}')))
+            return (BytesModel(mk.sstr(p, f'out{self.n}'), f'out{self.n}'),
+                    BytesModel(mk.sstr(p, f'err{self.n}'), f'err{self.n}'))
         tmo = force(timeout) if timeout is not None else None
         if tmo is not None and p.decide(p.fresh_bool(f'timed_out{self.n}')):
             ghost(p, 'events').append(('timeout', self.n))
@@ -126,8 +151,8 @@ class ProcModel:
             ghost(p, 'events').append(('blocking-wait', self.n))
         # terminated normally or by a signal: integer return code
         self.returncode = SNum(p.fresh_int(f'rc{self.n}'))
-        return (BytesModel(mk.sstr(p, f'out{self.n}')),
-                BytesModel(mk.sstr(p, f'err{self.n}')))
+        return (BytesModel(mk.sstr(p, f'out{self.n}'), f'out{self.n}'),
+                BytesModel(mk.sstr(p, f'err{self.n}'), f'err{self.n}'))
 
     def kill(self):
         self.killed = True
